@@ -147,6 +147,17 @@ func (v *Vue) evalElseIfChain(ctx VueContext, node *html.Node, nodes []*html.Nod
 func (v *Vue) evaluateNodeAsElement(ctx VueContext, node *html.Node, depth int) ([]*html.Node, error) {
 	var result []*html.Node
 
+	// The v-else-if / v-else branches of a chain, and the v-else of an empty v-for, reach this
+	// function without passing the v-once check of evaluate (the head of a chain has passed
+	// it and arrives here unmarked).
+	if helpers.HasAttr(node, "v-once") {
+		admitted, ok := ctx.admitOnce(node)
+		if !ok {
+			return result, nil
+		}
+		node = admitted
+	}
+
 	// Handle v-for if present
 	if vFor := helpers.GetAttr(node, "v-for"); vFor != "" {
 		loopNodes, err := v.evalFor(ctx, node, vFor, depth+1)
